@@ -397,6 +397,8 @@ class ConfigRun(object):
         typ = o.typ
         if self.announced_undelivered(o) and o.name.lower() not in self.unacked:
             return      # two controllers racing on one option: outside the statement (Appendix A.5)
+        if getattr(o, 'nonstr', False) and o.name.lower() in self.unacked:
+            return      # a list with int elements is pending: left alone until its save is acknowledged (Appendix A.5)
         if typ in LISTY:
             if not o.assigned and ch.chance(2, 3, 'inplace'):
                 inflight = self.in_flight_option(o)
@@ -426,7 +428,8 @@ class ConfigRun(object):
                 # assign the live (tracked) list read off another option: the two options must stay independent afterwards
                 src = ch.pick(others, 'aliassrc')
                 live = getattr(self.cfg, self.name_case(src))
-                if isinstance(live, list) and live and not any(isinstance(x, list) or str(x) == 'DEFAULT' for x in live):
+                if isinstance(live, list) and live and not any(isinstance(x, list) or str(x) == 'DEFAULT' for x in live) and \
+                        (all(isinstance(x, str) for x in live) or self.inflight_count() == 0):
                     value = live
                     new = [str(x) for x in live]
                     sim.probe('assign-live-list-of-another-option')
@@ -436,7 +439,8 @@ class ConfigRun(object):
             sim.probe('assign-list')
             sim.log('assign', o.name, new)
             assigned = list(new)
-            if value is None and typ == 'PORT' and new and all(x.isdigit() for x in new) and ch.chance(1, 3, 'intlist'):
+            if value is None and typ == 'PORT' and new and all(x.isdigit() for x in new) and self.inflight_count() == 0 and \
+                    ch.chance(1, 3, 'intlist'):
                 assigned = [int(x) for x in new]       # conf.SOCKSPort = [9050, 1337]
                 sim.probe('list-element-int')
             # (only a real list is accepted for a list option: tuples are refused with ValueError, so none is generated)
@@ -500,9 +504,10 @@ class ConfigRun(object):
         op = ch.pick(ops, 'lop')
         tag = '%s%d' % ('9' if o.typ == 'PORT' else 'ip', 200 + o.version)
         tag2 = tag + '1'
-        if o.typ == 'PORT' and ch.chance(1, 3, 'inttag'):
+        if o.typ == 'PORT' and self.inflight_count() == 0 and ch.chance(1, 3, 'inttag'):
             # port lists are documented with int elements (conf.SOCKSPort = [9050, 1337])
             tag, tag2 = int(tag), int(tag2)
+            o.nonstr = True
             sim.probe('list-element-int')
         if o.name.lower() in self.unacked and not self.in_flight_option(o) and ch.chance(1, 3, 'lfail') and \
                 not any(str(x) == 'DEFAULT' for x in lst):
@@ -585,7 +590,8 @@ class ConfigRun(object):
             raw = self.peek_unsaved(o) if o.typ in LISTY else None
             # (a list in flight that still holds the DEFAULT placeholder element is not "the same" as a later
             # assignment of its real elements)
-            snap[lname] = (o.version, self.canon(o) if not (isinstance(raw, list) and any(str(x) == 'DEFAULT' for x in raw)) else None)
+            snap[lname] = (o.version, self.canon(o) if not (isinstance(raw, list) and (
+                any(str(x) == 'DEFAULT' for x in raw) or any(not isinstance(x, str) for x in raw))) else None)
             if o.typ in LISTY:
                 vals = [str(x) for x in o.local]
                 items[lname] = vals if vals else ['<clear>']
@@ -646,6 +652,7 @@ class ConfigRun(object):
                 if (o.version == ver or (self.canon(o) == val and not getattr(o, 'nonstr', False))) and lname in self.unacked:
                     self.unacked.remove(lname)
                     o.assigned = False
+                    o.nonstr = False
             self.had_reject = False
         else:
             self.had_reject = True
